@@ -178,12 +178,14 @@ def scanEnclosed (pcs : Classes) (e notE : BidiClass) (stop : Nat) : List Nat â†
         (if e == L then scanEnclosed pcs e notE stop rest true else (true, fne))
       else scanEnclosed pcs e notE stop rest fne
 
-/-- `for idx in it { if oc[idx] == NSM || pcs[idx] == BN { pcs[idx] = v } else { break } }` -/
+/-- `for idx in it { if oc[idx] == NSM { pcs[idx] = v } else if !removed_by_x9(oc[idx]) { break } }`
+    (original classes only: a unit X9 removes is stepped over and never written; repaired form, finding D9) -/
 def setWhileNsmOrBN (ocs pcs : Classes) (it : List Nat) (v : BidiClass) : Classes :=
   match it with
   | [] => pcs
   | idx :: rest =>
-    if cget ocs idx == NSM || cget pcs idx == BN then setWhileNsmOrBN ocs (pcs.set idx v) rest v
+    if cget ocs idx == NSM then setWhileNsmOrBN ocs (pcs.set idx v) rest v
+    else if (cget ocs idx).removedByX9 then setWhileNsmOrBN ocs pcs rest v
     else pcs
 
 /-- N0 for one bracket pair -/
